@@ -2,7 +2,7 @@
   ActGen: for every translated action function, the interpreter on the generated term IS the
   corresponding arm of the hand-written `actionCore` — an equation between computations of the model
   monad (same queries, same state changes, same results, same exceptions) for ALL stack slices, except
-  for nine functions where the two sides differ only on ill-typed or ill-sized slices (which the LR
+  for ten functions (nine here, `p_redirection_heredoc` in `Loops.lean`) where the two sides differ only on ill-typed or ill-sized slices (which the LR
   engine never builds: C12 `parserRun_ok`) and only in WHICH foreign exception is raised.  Each of
   those is stated with its explicit, decidable condition (`sliceOK` in `All.lean`):
     `p_list1`, `p_simple_list1`, `p_pipeline`: the Python builds the operator node from `p[2]` before it
@@ -267,7 +267,7 @@ theorem actgen_p_function_body (np : NestedParse) (args : List SVal) (h : slot a
     cases hl : l.getLast? with
     | none => exact absurd (List.getLast?_eq_none_iff.1 hl) h
     | some last =>
-      simp [hl]
+      simp [hl, List.lookup]
   · rfl
 
 /-- `p_command`: slot 1 is a node (and then, for `len(p) == 3`, slot 2 is a list) or slot 1 is a list -/
